@@ -106,7 +106,7 @@ func TestVerifC22Stackless(t *testing.T) {
 			for int(rejected.Load()) < nc-(capQ+1) && time.Now().Before(deadline) {
 				time.Sleep(time.Millisecond)
 			}
-			if int(rejected.Load()) == nc-(capQ+1) {
+			if int(rejected.Load()) >= nc-(capQ+1) {
 				saturated++
 			}
 			close(g)
@@ -122,7 +122,10 @@ func TestVerifC22Stackless(t *testing.T) {
 		rejectedTotal += int(rejected.Load())
 	}
 	tw.Close()
-	if saturated == 0 {
+	vfOut.mu.Lock()
+	nviol := vfOut.nviol
+	vfOut.mu.Unlock()
+	if saturated == 0 && nviol == 0 {
 		vfInfra("the gated round never saturated the stackless queue (harness problem)")
 	}
 	vfStat(evals, rejectedTotal, vfRec{"trace_file": tw.f.Name(), "stackless_calls": evals, "stackless_rejected": rejectedTotal, "saturated_rounds": saturated})
